@@ -24,6 +24,7 @@ def cases(tier, seed):
         c["sel_seed"] = seed * 43 + i
     if tier == "thorough":
         cs.append({"asset": "example_plt_2d", "sel_seed": seed})
+        cs.append({"kind": "repo_suite", "sel_seed": seed})
     return cs
 
 
@@ -34,6 +35,26 @@ def setup():
 
 
 def run_case(case, work, rec):
+    if case.get("kind") == "repo_suite":
+        # the contracts while the repository's own tests run (real assets, real pools)
+        from .. import reposuite
+        counts, fails, summary, npids = reposuite.run(work, ['expand'])
+        rec.count("repo_suite_runs")
+        rec.count("repo_suite_processes_reporting", npids)
+        total = 0
+        for k, v in counts.items():
+            rec.count("repo_suite_calls:" + k, v)
+            total += v
+        rec.sample({"repo_suite": summary, "contract_evaluations": counts})
+        mine = [f for f in fails if f["fail"] in ('expand_array','expand_array3d')]
+        if total == 0:
+            rec.undecided("no contract evaluated under the repository's suite")
+        for f in mine[:10]:
+            rec.violation(f"contract on {f['fail']} broken while the repository's own tests ran: {f['detail'][:200]}",
+                          witness=f, key=("repo_suite", f["fail"], f["detail"][:80]))
+        if not mine and total:
+            rec.ok(("repo_suite", summary), True)
+        return
     from amr_kitchen.mandoline import Mandoline
     rng = random.Random(case["sel_seed"])
     if "asset" in case:
